@@ -1,0 +1,44 @@
+//go:build verif
+
+package gc
+
+// Contracts for the verification framework in /verif (comment-only).
+
+// ---- the cleanup decision (C17): state of a container is removed only if the runtime says the
+// container is gone or has exited; an inspect error other than not-found keeps the state ----
+//@ uninterp getenv(name string) string
+//@ pure goneOrExited(cid string) bool = !(cid in CtrExists) || CtrStatus[cid] == "exited" || CtrStatus[cid] == "dead"
+//@ pure sandboxGoneOrNotReady(cid string) bool = !(cid in SbxExists) || cid in SbxNotReady
+//@ pure deadCtr(cid string) bool = getenv("CONTAINERD_HOST") == "" ? goneOrExited(cid) : sandboxGoneOrNotReady(cid)
+//@ func [C17,C18] (*flannelGC).shouldCleanup
+//@   requires gc.dockerCli != nil && gc.kubeCli != nil
+//@   ensures [C17:docker-cleanup-only-gone-or-exited] getenv("CONTAINERD_HOST") == "" && result ==> goneOrExited(cid)
+//@   ensures [C17:containerd-cleanup-only-gone-or-not-ready] getenv("CONTAINERD_HOST") != "" && result ==> sandboxGoneOrNotReady(cid)
+//@   modifies fresh types.ContainerJSON.*, fresh types.ContainerJSONBase.*, fresh types.ContainerState.*, fresh v1.PodSandboxStatus.*, fresh mapsof(map[string]string), fresh v1.Pod.*, fresh elemsof(interface{})
+//@   loop 0 invariant true
+
+// ---- every removal is guarded by the decision for the same container (C17) ----
+// Removed: files removed so far; PortsCleaned: container ids whose port mappings were cleaned
+//@ ghost Removed mset[string]
+//@ ghost PortsCleaned mset[string]
+//@ func (*flannelGC).cleanPortFunc trusted
+//@   modifies PortsCleaned
+//@   ensures PortsCleaned == old(PortsCleaned)[containerID := true]
+//@ func [C17,C18] (*flannelGC).removeLeakyStateFile
+//@   requires gc.cleanPortFunc != nil
+//@   ensures [C17:state-file-removal-frame] forall f string :: f != file ==> (f in Removed) == old(f in Removed)
+//@   ensures [C17:port-clean-frame] forall c string :: c != fileBase(file) ==> (c in PortsCleaned) == old(c in PortsCleaned)
+//@   modifies Removed, PortsCleaned
+//@ func [C17,C18] removeLeakyIPFile
+//@   ensures [C17:ip-file-removal-frame] forall f string :: f != ipFile ==> (f in Removed) == old(f in Removed)
+//@   modifies Removed
+// one pass over the gc dirs: a file is removed / a port mapping cleaned only for an entry whose
+// name shouldCleanup approved, i.e. (docker) a container that is gone or has exited
+//@ func [C17,C18] (*flannelGC).cleanupGCDirs
+//@   requires gc.dockerCli != nil && gc.kubeCli != nil && gc.cleanPortFunc != nil
+//@   ensures [C17:gc-dirs-remove-only-dead] forall f string :: f in Removed && !old(f in Removed) ==> deadCtr(fileBase(f))
+//@   ensures [C17:gc-dirs-clean-ports-only-dead] forall c string :: c in PortsCleaned && !old(c in PortsCleaned) ==> deadCtr(c)
+//@   modifies all
+//@   loop 0,1 invariant gc.dockerCli != nil && gc.kubeCli != nil && gc.cleanPortFunc != nil && CtrExists == old(CtrExists) && CtrStatus == old(CtrStatus) && SbxExists == old(SbxExists) && SbxNotReady == old(SbxNotReady)
+//@   loop 0,1 invariant forall f string :: f in Removed && !old(f in Removed) ==> deadCtr(fileBase(f))
+//@   loop 0,1 invariant forall c string :: c in PortsCleaned && !old(c in PortsCleaned) ==> deadCtr(c)
